@@ -32,14 +32,14 @@ abbrev sa : Nat := 5
 abbrev sb : Nat := 8
 abbrev sk : Nat := 11
 
-def base (c : Curve F) : Store F := fun i => if i = rA then c.A else if i = rB then c.B else c.f.zero
+def base (c : Curve F) : Store F := ⟨fun i => if i = rA then c.A else if i = rB then c.B else c.f.zero⟩
 
 def put3 (st : Store F) (q : Nat) (p : P3 F) : Store F :=
   upd (upd (upd st (cX q) p.1) (cY q) p.2.1) (cZ q) p.2.2
 def put2 (st : Store F) (q : Nat) (p : P2 F) : Store F :=
   upd (upd st (cX q) p.1) (cY q) p.2
-def get3 (st : Store F) (q : Nat) : P3 F := (st (cX q), st (cY q), st (cZ q))
-def get2 (st : Store F) (q : Nat) : P2 F := (st (cX q), st (cY q))
+def get3 (st : Store F) (q : Nat) : P3 F := (st.get (cX q), st.get (cY q), st.get (cZ q))
+def get2 (st : Store F) (q : Nat) : P2 F := (st.get (cX q), st.get (cY q))
 
 /-- slot of the first / second operand under an aliasing pattern -/
 def slotA : Al → Nat
